@@ -61,6 +61,29 @@ CHECKS = {
                      "(normal or by exception), defaults in fresh threads spawned inside a block, no leak at thread end.",
                 note="The model is the statement's precedence rule plus the documented fall-backs; joblib itself is "
                      "not stubbed, only the thread scheduler is simulated."),
+    "C05": dict(engine="simfs", cat="fault_enumeration", ref="DESIGN.md section 3 (C05)",
+                technique="deterministic fault injection: enumeration of every file-system call of each workload as kill "
+                          "instant (plus torn writes, seeded directory orders, a second kill during recovery), real "
+                          "processes killed on a real directory, verdict by a fresh process",
+                text="Per workload the crash points are enumerated exhaustively (every prefix of the file-system op "
+                     "sequence of the crashing session, every 4 KiB tear of large raw writes in the thorough tier); "
+                     "the frozen directory is judged before any recovery call (every visible output.pkl loads and "
+                     "equals its arguments' value), then calls must return the current version's values without "
+                     "raising (with and without expires_after) and be cache hits afterwards.",
+                note="Exhaustive only over the crash points of the listed workloads and the sampled directory orders; "
+                     "a kill is modelled as os._exit between two file-system calls (or inside a write at 4 KiB "
+                     "granularity); power-loss semantics (lost completed writes) are out of scope."),
+    "C11": dict(engine="simfs", cat="exploration", ref="DESIGN.md section 3 (C11)",
+                technique="deterministic simulation: 2-8 real actor processes/threads on one cache directory under a "
+                          "turn-based controller granting one file-system call at a time (seeded grant order, targeted "
+                          "pre-emption at check-then-act windows, optional kills)",
+                text="Seeded interleavings at file-system-call granularity; oracle: every call returns the correct "
+                     "value and raises nothing, whatever is visible under a final name is one complete result at every "
+                     "step, every entry present at quiescence is complete and correct, no actor hangs. Writers are "
+                     "distinguishable (equal values, different multi-write pickles).",
+                note="File-system calls are atomic units; set-up (Memory construction) is done in a quiet phase; "
+                     "exceptions of reduce_size/clear themselves are observations; .get() of a shelved reference may "
+                     "raise when another actor may have cleared the entry."),
 }
 NOT_APPLICABLE = {
     "C03": "pure function of (object, compressor, protocol, target): no schedule, clock, fault or history for a simulator to own; input enumeration is not this technique (its damaged-file cousin is C14, its stateful reader C13)",
@@ -102,6 +125,8 @@ def main():
         "engines": [
             {"name": "detsched", "path": "sim/detsched.py", "serves_properties": ["C01", "C04", "C09", "C10", "C15", "C16", "C17"],
              "kind_free_text": "deterministic baton-passing scheduler over real parked threads, settrace pre-emption, virtual clock, recorded decision list"},
+            {"name": "simfs", "path": "sim/simfs.py", "serves_properties": ["C05", "C11", "C18", "C02", "C06", "C12"],
+             "kind_free_text": "file-system seam (counting / killing / turn-based wrappers on os.* and open), forked actor processes, simulated clock for the cache code"},
             {"name": "simpool", "path": "sim/simpool.py", "serves_properties": ["C01", "C04", "C09", "C15", "C16"],
              "kind_free_text": "stub thread pool / process pool / loky executor / generic backend under the real joblib backends"},
         ],
